@@ -301,6 +301,22 @@ func (*reader).Consume
     ensures[errs]     err == nil || err == index.ErrOffsetAfterEnd || err == index.ErrOffsetIndexEmpty || ioerr(err)
     ensures[failed]   err != nil ==> ret0 == OffsetInvalid && len(ret1) == 0
 
+// C14, "no call panics" when the log file was cut or overwritten AFTER its index was built: the reader may then rely
+// only on the index being a well-formed item list and on the record abstraction of the file being consistent - not
+// on the items being records of the file (rdWf). Under that weaker invariant every panic obligation (index, slice,
+// nil, type assertion) of the body is proved again; the callees' postconditions are used as far as they do not
+// depend on the lost agreement (in particular message.Reader.Consume may return no message at all).
+pred rdDamaged(r *reader) :=
+    r != nil && wfItems(r.gitems, r.gnext) && wfFile(r.gfile)
+    && (r.index != nil ==> ixAgrees(r.index, r)) && (r.index == nil ==> r.head == r.ghead)
+    && (r.messages != nil ==> r.messages.gfile == r.gfile)
+
+func (*reader).Consume alt damaged
+    flags locks only_panic noframe
+    requires[locks] rdLocksFree() && ixLocksFree()
+    requires rdDamaged(r) && 1 <= maxCount && maxCount <= 1048576
+    assigns r.index, r.indexLastAccess, r.messages, r.messagesInuse
+
 func (*reader).Get
     flags locks
     requires[locks] rdLocksFree() && ixLocksFree()
